@@ -1,17 +1,17 @@
 """Gen/Wsgi.lean: everything the C03/C09 theorems range over, taken from the live modules.
 
 Behavioural where cheap:
-  * bodylessStatuses   - every status 100..999 for which a GET handler returning b'x' gets an empty
+  * wsgiBodylessStatuses   - every status 100..999 for which a GET handler returning b'x' gets an empty
                          iterable back from Ombott.__call__ (probed on a real application)
-  * hookReversed       - for each hook name, whether add_hook registers in reverse order
+  * wsgiHookReversed       - for each hook name, whether add_hook registers in reverse order
                          (two callbacks registered, list order observed)
-  * errorsMap          - DefaultConfig.errors_map: class name -> (status code, status line, body)
-  * statusLines        - response._HTTP_STATUS_LINES
-  * badHeaders         - BaseResponse.bad_headers
-  * errorPage          - error.html as error_render.render walks it (stripped lines, <style> block
+  * wsgiErrorsMap          - DefaultConfig.errors_map: class name -> (status code, status line, body)
+  * wsgiStatusLines        - response._HTTP_STATUS_LINES
+  * wsgiBadHeaders         - BaseResponse.bad_headers
+  * wsgiErrorPage          - error.html as error_render.render walks it (stripped lines, <style> block
                          verbatim) cut into literal / placeholder segments by Python's own
                          string.Formatter
-  * castMaxLoops       - the loop bound of Ombott._cast (from its source text)
+  * wsgiCastMaxLoops       - the loop bound of Ombott._cast (from its source text)
   * defaultContentType, defaultStatus, errorDefaultStatus, catchall, debug
 """
 import inspect
@@ -120,26 +120,26 @@ def generate():
     page = _error_page()
     o = []
     o.append('/-- statuses 100..999 whose GET response comes back with an empty iterable (probed) -/')
-    o.append('def bodylessStatuses : List Nat := ' + llist(str(s) for s in bodyless) + '\n')
+    o.append('def wsgiBodylessStatuses : List Nat := ' + llist(str(s) for s in bodyless) + '\n')
     o.append('/-- hook name, registered in reverse order? (probed through add_hook/emit) -/')
-    o.append('def hookReversed : List (String × Bool) := ' +
+    o.append('def wsgiHookReversed : List (String × Bool) := ' +
              llist(f'({lstr(n)}, {lbool(r)})' for n, r in hooks) + '\n')
     o.append('/-- DefaultConfig.errors_map: exception class, status code, status line, body -/')
-    o.append('def errorsMap : List (String × Nat × String × String) := ' +
+    o.append('def wsgiErrorsMap : List (String × Nat × String × String) := ' +
              llist(f'({lstr(c)}, {s}, {lstr(l)}, {lstr(b)})' for c, s, l, b in emap) + '\n')
     o.append('/-- response._HTTP_STATUS_LINES -/')
-    o.append('def statusLines : List (Nat × String) := [\n  ' +
+    o.append('def wsgiStatusLines : List (Nat × String) := [\n  ' +
              ',\n  '.join(f'({c}, {lstr(l)})' for c, l in lines) + ']\n')
     o.append('/-- BaseResponse.bad_headers -/')
-    o.append('def badHeaders : List (Nat × List String) := ' +
+    o.append('def wsgiBadHeaders : List (Nat × List String) := ' +
              llist(f'({c}, {llist(lstr(x) for x in v)})' for c, v in bad) + '\n')
     o.append('/-- error.html as render() emits it: (is placeholder, literal text or placeholder name) -/')
-    o.append('def errorPage : List (Bool × String) := [\n  ' +
+    o.append('def wsgiErrorPage : List (Bool × String) := [\n  ' +
              ',\n  '.join(f'({lbool(h)}, {lstr(t)})' for h, t in page) + ']\n')
-    o.append(f'def castMaxLoops : Nat := {int(m.group(1))}\n')
-    o.append(f'def defaultContentType : String := {lstr(rsp.BaseResponse.default_content_type)}')
-    o.append(f'def defaultStatus : Nat := {int(rsp.BaseResponse.default_status)}')
-    o.append(f'def errorDefaultStatus : Nat := {int(rsp.HTTPError.default_status)}')
-    o.append(f'def catchall : Bool := {lbool(om.DefaultConfig.catchall)}')
-    o.append(f'def debug : Bool := {lbool(om.DefaultConfig.debug)}')
+    o.append(f'def wsgiCastMaxLoops : Nat := {int(m.group(1))}\n')
+    o.append(f'def wsgiDefaultContentType : String := {lstr(rsp.BaseResponse.default_content_type)}')
+    o.append(f'def wsgiDefaultStatus : Nat := {int(rsp.BaseResponse.default_status)}')
+    o.append(f'def wsgiErrorDefaultStatus : Nat := {int(rsp.HTTPError.default_status)}')
+    o.append(f'def wsgiCatchall : Bool := {lbool(om.DefaultConfig.catchall)}')
+    o.append(f'def wsgiDebug : Bool := {lbool(om.DefaultConfig.debug)}')
     return '\n'.join(o) + '\n'
